@@ -106,13 +106,16 @@ def rule_W1(ctx):
     per = {m: 0 for m in T.MIXINS}
     for func, node, field, how in sites:
         owner = fields[field][0] if field in fields else (func.cls.name if func.cls else "?")
-        ok = func.cls is not None and func.cls.name == owner and func.srcname in WRITER_FUNCS and func.outer is None
+        private = func.srcname.startswith("__") and not func.srcname.endswith("__")
+        accessor = func.kind in ("setter", "deleter") and func.srcname in ("parent", "children")
+        ok = func.cls is not None and func.cls.name == owner and (func.srcname in WRITER_FUNCS or private or accessor) and func.outer is None
         if ok:
             per[owner] = per.get(owner, 0) + 1
             ctx.inst("W1", func, node, "link write (%s) inside the owning mixin's writer" % how)
         else:
-            ctx.viol("W1", func, node, "link field %s written (%s) outside %s.{__detach,__attach,__children_or_empty}: "
-                     "the parent/children views can be changed without the paired update" % (field, how, owner))
+            ctx.viol("W1", func, node, "link field %s written (%s) outside the private machinery of %s (its name-mangled methods "
+                     "and the parent/children accessors): the parent/children views can be changed without the paired update" % (
+                         field, how, owner))
     for m, cnt in per.items():
         if cnt < 2:
             raise AnalysisError("W1 found only %d link-write sites in %s (5 confirmed on the pinned tree)" % (cnt, m))
@@ -174,8 +177,20 @@ def rule_W8(ctx, typer):
             continue
         cfg = typer.cfg_of(func)
         ft = typer.results.get(func)
+        in_finally = set()
+        for t_ in walk_own(func.node):
+            if isinstance(t_, ast.Try):
+                for s_ in t_.finalbody:
+                    for x in ast.walk(s_):
+                        if isinstance(x, ast.Assert):
+                            in_finally.add(id(x))
         for a in asserts:
             n += 1
+            if id(a) in in_finally:
+                ctx.viol("W8", func, a, "assert sits in a `finally` clause: it is also evaluated when the guarded block was left by an "
+                         "exception (a refused or vetoed call), where the state it describes was never reached - with assertions "
+                         "on, an AssertionError replaces the caller's exception")
+                continue
             nodes = cfg.nodes_of(a)
             guarded = bool(nodes)
             for cn in nodes:
